@@ -230,6 +230,7 @@ func c09One(r *ev.Run, n *wire.N, what string) string {
 			break
 		}
 	}
+	dd0 := dump.Dump(dec, pktDump)
 	dc := bind.CodecOf(dec, func() any { return bind.FreshPkt(kind) })
 	var b2 []byte
 	var l2 int
@@ -242,9 +243,33 @@ func c09One(r *ev.Run, n *wire.N, what string) string {
 	if l2 != len(b) {
 		return bad("extent:"+kind, fmt.Sprintf("the decoded value reports %d bytes, %d were consumed", l2, len(b)))
 	}
+	// differential from a non-initial state: decoding into a receiver that already decoded another
+	// header of the same kind must give what a fresh receiver gives
+	if prev := c09Reuse[kind]; prev != nil {
+		var rdec any
+		pc := bind.CodecOf(prev, func() any { return prev })
+		if pn := safePkt(func() { rdec, err = pc.Decode(append([]byte{}, b...)) }); pn != nil {
+			return bad("reused-receiver-panic:"+kind, fmt.Sprintf("decoding into a receiver used before panicked: %v", pn))
+		}
+		if err != nil {
+			return bad("reused-receiver:"+kind, "decoding into a receiver used before failed: "+err.Error())
+		}
+		if dr := dump.Dump(rdec, pktDump); dr != dd0 {
+			return bad("reused-receiver:"+kind, "a receiver that decoded another "+kind+" before gives different field values than a fresh one: "+firstDiff(dd0, dr))
+		}
+		rc := bind.CodecOf(rdec, func() any { return bind.FreshPkt(kind) })
+		var rb []byte
+		if pn := safePkt(func() { rb, _ = rc.Encode() }); pn != nil || !bytes.Equal(rb, b) {
+			return bad("reused-receiver:"+kind, fmt.Sprintf("a receiver that decoded another %s before re-encodes to %x..., a fresh one to %x...", kind, head(rb, 24), head(b, 24)))
+		}
+	}
+	c09Reuse[kind] = dec
 	r.Outcome("round-trip:" + kind)
 	return ""
 }
+
+// c09Reuse holds, per kind, the receiver of the previous decode (reused for the next one).
+var c09Reuse = map[string]any{}
 
 // packed-group sweeps: exhaustive over the in-range domain of each group.
 func c09Packed(r *ev.Run) int64 {
@@ -469,9 +494,38 @@ func packetSizes(r *ev.Run, ret *retained) int64 {
 			return
 		}
 		n++
-		sizeCheck(r, le, t.K, ret, func(sig, what string) {
+		bad := func(sig, what string) {
 			r.Violation(sig, what+" in "+shortModel(t), pktCase{Model: shortModel(t), Tree: t})
-		})
+		}
+		b := sizeCheck(r, le, t.K, ret, bad)
+		// containers embed their children intact: the extension headers (in chain order) and the
+		// payload, each encoded standalone by the library, sit contiguously at the end of the parent
+		if b != nil && (t.K == "eth" || t.K == "ipv4" || t.K == "ipv6") {
+			var kids [][]byte
+			okKids := true
+			for _, c := range append(append([]*wire.N{}, t.L["Ext"]...), t.S["Data"]) {
+				if c == nil {
+					continue
+				}
+				cv, err := bind.BuildPkt(c)
+				cl, isLE := cv.(lenEnc)
+				if err != nil || !isLE {
+					okKids = false
+					break
+				}
+				cb, err, pn := safeEncodeLE(cl)
+				if pn != nil || err != nil {
+					okKids = false
+					break
+				}
+				kids = append(kids, append([]byte{}, cb...))
+			}
+			if okKids && len(kids) > 0 {
+				if d := embeddedPad(b, kids, 0, 0); d != "" {
+					bad("embed:"+t.K+".children", d)
+				}
+			}
+		}
 	})
 	r.Completed("packet headers: every tree of the packet corpus sized before/after encoding")
 	return n
